@@ -39,7 +39,8 @@ BUILTIN_EXC_PARENTS = {
 
 
 class Resolution:
-    __slots__ = ('kind', 'funcs', 'prim', 'raises', 'self_expr', 'text', 'rtype')
+    __slots__ = ('kind', 'funcs', 'prim', 'raises', 'self_expr', 'text', 'rtype',
+                 'args_override')
 
     def __init__(self, kind, funcs=None, prim=None, raises=None, self_expr=None, text='',
                  rtype=None):
@@ -50,6 +51,7 @@ class Resolution:
         self.self_expr = self_expr
         self.text = text
         self.rtype = rtype
+        self.args_override = None
 
     def names(self):
         return [f.qualname for f, _ in self.funcs]
